@@ -4704,15 +4704,19 @@ func (t *Terminal) Loop() error {
 		}()
 	}
 
+	// The item the preview was last requested for. Also updated when an action
+	// restarts the preview, so that the render loop notices that the focus has
+	// moved since then even if it is back on the item it saw before.
+	var focusedIndex = minItem.Index()
 	refreshPreview := func(command string) {
 		if len(command) > 0 && t.canPreview() {
 			_, list := t.buildPlusList(command, false)
+			focusedIndex = t.currentIndex()
 			t.enqueuePreview(command, list)
 		}
 	}
 
 	go func() { // Render loop
-		var focusedIndex = minItem.Index()
 		var version int64 = -1
 		running := true
 		code := ExitError
